@@ -161,6 +161,100 @@ def hash_calls(ff: FuncFlow) -> List[ast.Call]:
   return [c for _, c in ff.calls() if ff.ext(c.func) == 'builtins.hash']
 
 
+def overwritten_accumulators(ff: FuncFlow) -> List[Tuple[ast.stmt, str]]:
+  """A variable that exists before a loop, is assigned by a top-level statement of the loop body without the loop ever reading the value
+  of the previous iteration, and is read after the loop: every iteration but the last is thrown away (`y = f(x, h[d])` where
+  `y = f(y, h[d])` was meant). None on the pinned tree."""
+  from fjsa.flow import carried_reads
+  out = []
+  for n in ff.cfg.nodes:
+    if n.kind not in ('for', 'while'):
+      continue
+    loop = n.ast
+    inside = {id(x) for x in ast.walk(loop)}
+    for st in loop.body:
+      if not (isinstance(st, ast.Assign) and len(st.targets) == 1 and isinstance(st.targets[0], ast.Name)):
+        continue
+      nm = st.targets[0].id
+      if not any(d.name == nm and id(d.node.ast) not in inside for ds in ff.rd.defs_at.values() for d in ds if d.node is not None and d.node.ast is not None):
+        continue
+      if isinstance(loop, ast.For) and any(isinstance(x, ast.Name) and x.id == nm for x in ast.walk(loop.target)):
+        continue
+      after = False
+      for nd in ff.cfg.nodes:
+        if nd.ast is None or id(nd.ast) in inside:
+          continue
+        for x in nd.walk():
+          if isinstance(x, ast.Name) and x.id == nm and isinstance(x.ctx, ast.Load) and id(x) not in inside:
+            if any(d.node is not None and d.node.ast is st for d in ff.defs_for(x)):
+              after = True
+      if after and not carried_reads(ff, loop, nm):
+        out.append((st, nm))
+  return out
+
+
+MEMO = {'functools.lru_cache', 'functools.cache'}
+
+
+def module_state_names(m) -> Set[str]:
+  """Module-level names whose object changes while the program runs: an attribute or item of it is assigned somewhere in the module,
+  it is rebound through `global`, or a mutating method is called on it inside a function."""
+  cache = m.__dict__.setdefault('_state_names', None)
+  if cache is not None:
+    return cache
+  top = {b for b in m.scope.bindings}
+  out: Set[str] = set()
+  for fn in m.functions():
+    for x in ast.walk(fn.node):
+      if isinstance(x, ast.Global):
+        out.update(x.names)
+      elif isinstance(x, (ast.Attribute, ast.Subscript)) and isinstance(x.ctx, (ast.Store, ast.Del)) and isinstance(x.value, ast.Name) and \
+          x.value.id in top and fn.scope.lookup_scope(x.value.id) is m.scope:
+        out.add(x.value.id)
+      elif isinstance(x, ast.Call) and isinstance(x.func, ast.Attribute) and isinstance(x.func.value, ast.Name) and x.func.value.id in top and \
+          x.func.attr in ('append', 'extend', 'add', 'update', 'setdefault', 'pop', 'clear', 'insert', 'remove') and \
+          fn.scope.lookup_scope(x.func.value.id) is m.scope:
+        out.add(x.func.value.id)
+  m.__dict__['_state_names'] = out
+  return out
+
+
+def reads_module_state(repo: Repo, fi: FuncInfo, depth: int = 4, _seen=None) -> Optional[str]:
+  """'<module>.<name> (via f -> g)' when `fi`, or a repository function it calls (to `depth`), reads run-time module state."""
+  _seen = _seen if _seen is not None else set()
+  if id(fi.node) in _seen or depth < 0:
+    return None
+  _seen.add(id(fi.node))
+  state = module_state_names(fi.module)
+  for x in ast.walk(fi.node):
+    if isinstance(x, ast.Name) and isinstance(x.ctx, ast.Load) and x.id in state and fi.scope.lookup_scope(x.id) is fi.module.scope:
+      return f'{fi.module.name}.{x.id} (read in {fi.qualname})'
+  try:
+    ff = FuncFlow.of(repo, fi)
+  except Exception:  # pylint: disable=broad-except
+    return None
+  for _, c in ff.calls():
+    r = ff.callee(c)
+    g = r.func if r.kind == 'func' else None
+    if g is not None and isinstance(g.node, (ast.FunctionDef, ast.AsyncFunctionDef)):
+      w = reads_module_state(repo, g, depth - 1, _seen)
+      if w:
+        return w
+  return None
+
+
+def stale_memoisation(repo: Repo, ff: FuncFlow) -> List[Tuple[ast.AST, str]]:
+  fi = ff.fi
+  out = []
+  for d in getattr(fi.node, 'decorator_list', []):
+    f = d.func if isinstance(d, ast.Call) else d
+    if ff.ext(f) in MEMO or txt(f).split('.')[-1] in ('lru_cache', 'cache'):
+      w = reads_module_state(repo, fi)
+      if w:
+        out.append((d, w))
+  return out
+
+
 def check_lints(check, funcs, rule_prefix: str = ''):
   repo = check.repo
   n = 0
@@ -178,6 +272,14 @@ def check_lints(check, funcs, rule_prefix: str = ''):
     for why in override_mismatches(repo, fi):
       check.ob('R-OVERRIDE', fi, fi.qualname, False, f'{why}: code written against the interface behaves differently with this implementation',
                node=fi.node, exact=True)
+    for d, w in stale_memoisation(repo, ff):
+      check.ob('R-CACHE', fi, '@' + txt(d)[:60], False,
+               f'the memoised result depends on more than the arguments: {w} changes at run time (backend selection, configuration), so a '
+               'cached result outlives the state it was built for', node=d, exact=True)
+    for st, nm in overwritten_accumulators(ff):
+      check.ob('R-LOOPCARRY', fi, txt(st)[:80], False,
+               f'`{nm}` is set before the loop and read after it, but the loop overwrites it in every iteration without reading the previous '
+               'value: only the last iteration has any effect', node=st, exact=True)
     for p in iterable_params(fi):
       for why in onepass_problems(ff, p):
         check.ob('R-ONEPASS', fi, f'iterable parameter {p}', False,
